@@ -374,6 +374,8 @@ type Atom struct {
 // atomsOf decomposes cond (taken in direction dir) into facts that certainly hold.
 // For a conjunction taken true, both conjuncts hold; go/ssa lowers && and || into control
 // flow, so conditions are mostly primitive already.
+var atomDepth int
+
 func atomsOf(cond ssa.Value, dir bool) []Atom {
 	switch x := cond.(type) {
 	case *ssa.UnOp:
@@ -404,9 +406,10 @@ func atomsOf(cond ssa.Value, dir bool) []Atom {
 		out := []Atom{{Kind: "call", Call: x, Pos: dir}}
 		// a predicate helper of the repository (straight-line body returning a condition): its
 		// condition holds too, with the helper's parameters replaced by the arguments
-		if h := staticCallee(x.Common()); h != nil && len(h.Blocks) == 1 && h.Pkg != nil && strings.HasPrefix(h.Pkg.Pkg.Path(), modPath) {
-			if ret, ok := h.Blocks[0].Instrs[len(h.Blocks[0].Instrs)-1].(*ssa.Return); ok && len(ret.Results) == 1 {
-				if _, isCall := ret.Results[0].(*ssa.Call); !isCall {
+		if h := staticCallee(x.Common()); h != nil && len(h.Blocks) >= 1 && len(h.Blocks) <= 6 && h.Pkg != nil && strings.HasPrefix(h.Pkg.Pkg.Path(), modPath) && atomDepth < 2 {
+			rets := returnsOf(h)
+			if len(rets) == 1 && len(rets[0].Results) == 1 && isBoolType(rets[0].Results[0].Type()) {
+				if _, isCall := rets[0].Results[0].(*ssa.Call); !isCall {
 					args := callArgs(x.Common())
 					sub := func(v ssa.Value) ssa.Value {
 						if par, ok := v.(*ssa.Parameter); ok {
@@ -418,7 +421,10 @@ func atomsOf(cond ssa.Value, dir bool) []Atom {
 						}
 						return v
 					}
-					for _, a := range atomsOf(ret.Results[0], dir) {
+					atomDepth++
+					inl := atomsOf(rets[0].Results[0], dir)
+					atomDepth--
+					for _, a := range inl {
 						if a.Kind == "val" {
 							continue
 						}
@@ -458,6 +464,13 @@ func atomsOf(cond ssa.Value, dir bool) []Atom {
 				}
 			}
 			if nonConst == 1 {
+				// the phi has the value dir only when control came through its non-constant
+				// edge: the facts dominating that predecessor hold as well
+				for i, e := range x.Edges {
+					if _, isC := constBool(e); !isC && i < len(x.Block().Preds) {
+						sub = append(sub, factsAt(x.Block().Preds[i])...)
+					}
+				}
 				return sub
 			}
 		}
